@@ -23,6 +23,7 @@ def x_obligations(tier):
                                  env={"VF_OP": op, "VF_SI": str(si), "VF_K1": str(k1), "VF_V1": str(v1), "VF_WK2": str(wk2), "VF_WV2": str(wv2), "VF_CONFIG": cfg}, timeout=T, family="C15-step",
                                  bound="pre-state: entity present/absent x side-car absent/holding one pair; written pair chosen by the solver from 3 keys x 6 values (incl. 'sid', None, int, non-ASCII)"))
     o.append(Obl("C15-sidecar-kernel", M, "sidecar_kernel", timeout=T, family="C15-sidecar", bound="8 x 8 names with dots at every position, real pathlib"))
+    o.append(Obl("C15-sidecar-kernel[shipped]", M, "sidecar_kernel", env={"VF_CONF": "shipped"}, timeout=T, family="C15-sidecar", bound="the shipped spil_data_conf.get_data_json_path, 8 x 8 names, real pathlib"))
     o.append(Obl("C15-reach", M, "reach", timeout=60, expect="refute", family="C15-twin"))
     return o
 
